@@ -244,6 +244,7 @@ def make_trans(name):
         "ACCKernels": PT.ACCKernelsTrans,
         "ACCData": T.ACCDataTrans,
         "ACCEnterData": T.ACCEnterDataTrans,
+        "ACCRoutine": T.ACCRoutineTrans,
         "OMPTaskwait": PT.OMPTaskwaitTrans,
     }[name]()
 
